@@ -446,6 +446,45 @@ func runPayloads(c *ctx, prop string) {
 	if c.thorough() {
 		n = 12000
 	}
+	// several relationships of either cardinality, some null / empty, some not: what one
+	// relationship decodes must not leak into another (repeated: Go walks the payload's
+	// relationships in map order)
+	{
+		links := typeSpec{name: "links4", fields: []fieldSpec{{name: "title", code: 1},
+			{rel: true, name: "author", toOne: true, target: "other"}, {rel: true, name: "editor", toOne: true, target: "other"},
+			{rel: true, name: "owner", toOne: true, target: "other"}, {rel: true, name: "reviewer", toOne: true, target: "other"},
+			{rel: true, name: "tags", target: "other"}, {rel: true, name: "cats", target: "other"}, {rel: true, name: "refs", target: "other"}}}
+		ident := func(id string) *jnode { return jObj().set("id", jString(id)).set("type", jString("other")) }
+		for _, wrapped := range []bool{false, true} {
+			sc := schemaSpec{types: []typeSpec{links, {name: "other"}}, wrapped: map[string]bool{"links4": wrapped}}
+			for mask := 0; mask < 16; mask++ {
+				rels := jObj()
+				for i, rn := range []string{"author", "editor", "owner", "reviewer"} {
+					if mask&(1<<i) != 0 {
+						rels.set(rn, jObj().set("data", ident(fmt.Sprint("p", i))))
+					} else {
+						rels.set(rn, jObj().set("data", jNull()))
+					}
+				}
+				for i, rn := range []string{"tags", "cats", "refs"} {
+					switch (mask + i) % 3 {
+					case 0:
+						rels.set(rn, jObj().set("data", jArr(ident(fmt.Sprint("t", i)), ident("t9"))))
+					case 1:
+						rels.set(rn, jObj().set("data", jArr()))
+					}
+				}
+				o := jObj().set("id", jString("a1")).set("type", jString("links4")).set("attributes", jObj().set("title", jString("x"))).set("relationships", rels)
+				reps := 3
+				if c.thorough() {
+					reps = 8
+				}
+				for k := 0; k < reps; k++ {
+					c13Payload(c, sc, o.text(), "several-relationships", prop)
+				}
+			}
+		}
+	}
 	// every subset of a small type's fields present
 	sub := typeSpec{name: "sub", fields: []fieldSpec{
 		{name: "a", code: 1}, {name: "b", code: 3, nullable: true}, {name: "c", code: 14},
